@@ -246,6 +246,24 @@ VF_PROPERTY(parse_wide_non_ascii, 2, "literals from the integer / float grammars
 		c.fail(e, d);
 }
 
+// a string_view is not NUL-terminated: what follows it in memory must not influence the result
+template <class T, class W> const char* subview_vs_copy(const std::basic_string<W>& s, const std::basic_string<W>& tail, std::string& detail) {
+	const std::basic_string<W> buf = s + tail; const std::basic_string_view<W> sv(buf.data(), s.size()); const Res<T> a = parse<T>(s), b = parse<T>(sv);
+	if (a.k != b.k || (a.k == KValue && !same_bits(a.v, b.v))) { detail = vf::cat(tname<T>(), " ", sizeof(W) * 8, "-bit text of ", s.size(), " units followed in memory by ", tail.size(), " more: own copy:", a.k, a.k == KValue ? vf::cat("(", a.v, ")") : std::string(), " sub-view:", b.k, b.k == KValue ? vf::cat("(", b.v, ")") : std::string()); return "the characters behind the end of a string_view influence the conversion"; }
+	return nullptr;
+}
+VF_PROPERTY(parse_subviews, 2, "literals from the integer / float / bool grammars handed over as a string_view into a larger buffer whose following characters are digits, signs, exponents, letters: the outcome must equal that of an own copy of the viewed text; char and char16_t / char32_t; targets bool, int8, uint32, int64, float, double; non-trivial = the following character is a digit, '.', 'e' or a sign")
+{
+	std::string s; switch (c.src.draw(3)) { case 0: s = gen_int_string(c.src); break; case 1: s = gen_float_string(c.src); break; default: { static const char* b[] = { "0", "1", "true", "false", " 1", "10", "01", "TRUE", "1.", "1e", "-", "" }; s = b[c.src.draw(12)]; } }
+	for (auto& ch : s) if (static_cast<unsigned char>(ch) >= 0x80 || ch == 0) ch = '7';
+	static const char* tails[] = { "5", "0", ".5", "e5", "e+", "-1", "+", "x", " ", "true", "9999999999999999999", "E", ".", "1e999" }; const std::string tail = tails[c.src.draw(14)];
+	c.nontrivial = !tail.empty() && (std::isdigit(static_cast<unsigned char>(tail[0])) || tail[0] == '.' || tail[0] == 'e' || tail[0] == 'E' || tail[0] == '-' || tail[0] == '+'); c.describe(vf::cat(show(s), " + ", show(tail)));
+	std::string d; const char* e = nullptr; const std::u16string s16(s.begin(), s.end()), t16(tail.begin(), tail.end()); const std::u32string s32(s.begin(), s.end()), t32(tail.begin(), tail.end());
+	if ((e = subview_vs_copy<bool>(s, tail, d)) || (e = subview_vs_copy<int8_t>(s, tail, d)) || (e = subview_vs_copy<uint32_t>(s, tail, d)) || (e = subview_vs_copy<int64_t>(s, tail, d)) || (e = subview_vs_copy<float>(s, tail, d)) || (e = subview_vs_copy<double>(s, tail, d))
+		|| (e = subview_vs_copy<bool>(s16, t16, d)) || (e = subview_vs_copy<int64_t>(s16, t16, d)) || (e = subview_vs_copy<double>(s32, t32, d)) || (e = subview_vs_copy<bool>(s32, t32, d)) || (e = subview_vs_copy<uint32_t>(s32, t32, d)))
+		c.fail(e, d);
+}
+
 VF_PROPERTY(parse_bool_strings, 1, "bool literals 0/1/true/false in any letter case with blanks, other digits, trailing text; agree across 4 widths; non-trivial = not exactly one of the four canonical spellings")
 {
 	static const char* W[] = { "true", "false", "0", "1", "2", "10", "01", "-1", "t", "tru", "yes", "" , "TRUE", "False", "fAlSe", "truex", "1x", "0.5", "9", "1e5", "0e-3", "1.", "1e", "0.x" };
